@@ -121,6 +121,21 @@ def server_shapes() -> dict[str, bool]:
         if h is not None:
             init_reply, drain_init = _reply_drain_return(h.body)
     out["initChecks"], out["initRepliesAndReturns"], out["drainInit"] = init_checks, init_reply, drain_init
+    # the init error stream carries the client logs buffered before the failure (`_write_error_stream(..., sink=sink)`)
+    flush_init = False
+    if len(it) == 1 and _handler(it[0], "Exception") is not None:
+        for n in ast.walk(_handler(it[0], "Exception")):  # type: ignore[arg-type]
+            if isinstance(n, ast.Call) and ast.unparse(n.func) == "_write_error_stream":
+                flush_init = any(k.arg == "sink" and ast.unparse(k.value) == "sink" for k in n.keywords)
+    out["initErrorFlushesLogs"] = flush_init
+    # the loop's `except Exception` writes the failed process() call's log batches ahead of the error batch
+    flush_fail = False
+    for t in _trys(ss):
+        h = _handler(t, "Exception")
+        if h is not None and "_write_error_batch" in _calls(h.body):
+            c = _calls(h.body)
+            flush_fail = "_flush_collector_logs" in c and c.index("_flush_collector_logs") < c.index("_write_error_batch")
+    out["failFlushesLogs"] = flush_fail
     # header written outside any try, before the input reader is opened
     top = [ast.unparse(s)[:60] for s in ss.body]
     hdr_i = next((i for i, s in enumerate(ss.body) if isinstance(s, ast.If) and "_write_stream_header" in _calls(s)), -1)
@@ -225,7 +240,7 @@ def wire_shapes() -> dict[str, bool]:
 
 
 MODEL_FIELDS = ["drainVersion", "drainParams", "drainInit", "drainUnknown", "initChecks", "cliDrainOverErr", "cliDrainSurvivesCb",
-                "unaryDrainOnCb", "hdrDrainOnCb", "hdrAbortCloses", "emptyRequestReplies"]
+                "unaryDrainOnCb", "hdrDrainOnCb", "hdrAbortCloses", "emptyRequestReplies", "initErrorFlushesLogs", "failFlushesLogs"]
 
 
 def emit() -> dict[str, str]:
@@ -251,6 +266,8 @@ structure Shape where
   hdrDrainOnCb : Bool        -- _read_header_batch drains when the callback raises
   hdrAbortCloses : Bool      -- the stream caller closes the server-side stream when the header read is aborted
   emptyRequestReplies : Bool -- _read_request answers a request stream without any batch (else StopIteration ends `serve`)
+  initErrorFlushesLogs : Bool -- the error stream of a failed stream init carries the logs emitted before the failure
+  failFlushesLogs : Bool     -- a failing process() call's logs are written ahead of its error batch
 deriving Repr, DecidableEq
 
 def shape : Shape := {{ {fields} }}
